@@ -94,6 +94,11 @@ pub struct Oracle {
     nak_since_eof: bool,
     left_recv: bool,
     now_ms: u64,
+    resumed_at: Option<u64>,
+    reqs_done: bool,
+    owed: Vec<(u64, u64)>,
+    owed_md: bool,
+    spoiled: bool,
     last_activity_ms: u64,
     eof_at: Option<u64>,
     nak_due_handled: bool,
@@ -128,6 +133,11 @@ impl Oracle {
             nak_since_eof: false,
             left_recv: false,
             now_ms: 0,
+            resumed_at: None,
+            reqs_done: false,
+            owed: Vec::new(),
+            owed_md: false,
+            spoiled: false,
             last_activity_ms: 0,
             eof_at: None,
             nak_due_handled: false,
@@ -210,6 +220,41 @@ impl Oracle {
                 }
             }
         }
+        // ---- C19 / C17: timers count only un-suspended time - after a resume every timer starts a fresh
+        // period, so no timer-limit fault can be declared less than one full period after the resume
+        if t[0] == "RESUME" && self.prev_st == TransactionState::Suspended {
+            self.resumed_at = Some(now);
+        } else if t[0] == "SUSPEND" {
+            self.resumed_at = None;
+        }
+        if t[0] == "RESUME" && !self.is_recv && o.res == "ok" && o.ut != std::time::Duration::MAX {
+            // a send transaction has no timers but the inactivity and ACK timers; both start afresh at a resume
+            let full = (self.cfg.ti.min(self.cfg.ta) as u64) * 1000;
+            if (o.ut.as_millis() as u64) < full {
+                for prop in ["C19", "C17"] {
+                    self.fail(orc, prop, k, format!("next deadline {} ms after a resume: the timers did not start a fresh period (shortest period {} ms)", o.ut.as_millis(), full));
+                }
+            }
+        }
+        if let Some(r) = self.resumed_at {
+            for i in &o.inds {
+                if let Indication::Fault(f) = i {
+                    let period = match f.condition {
+                        Condition::PositiveLimitReached => Some(self.cfg.ta),
+                        Condition::InactivityDetected => Some(self.cfg.ti),
+                        Condition::NakLimitReached => Some(self.cfg.tn),
+                        _ => None,
+                    };
+                    if let Some(p) = period {
+                        if now < r + p as u64 * 1000 {
+                            for prop in ["C19", "C17"] {
+                                self.fail(orc, prop, k, format!("{:?} declared {} ms after the resume: time spent suspended was counted by the timer (period {} s)", f.condition, now - r, p));
+                            }
+                        }
+                    }
+                }
+            }
+        }
         if self.is_recv {
             self.step_recv(k, &t, o, orc);
         } else {
@@ -220,6 +265,46 @@ impl Oracle {
 
     fn step_recv(&mut self, k: usize, t: &[&str], o: &Obs, orc: &mut impl Write) {
         let acked = self.cfg.mode == TransmissionMode::Acknowledged;
+        // ---- C13, transaction clause: the requests of the metadata run once, in order, only in a finalisation
+        // that ends without error; the same responses go to the user and into the Finished PDU
+        if !self.cfg.reqs.is_empty() {
+            for i in &o.inds {
+                if let Indication::Finished(f) = i {
+                    if f.filestore_responses.is_empty() {
+                        continue;
+                    }
+                    if self.reqs_done {
+                        self.fail(orc, "C13", k, "the filestore requests were executed (reported) a second time".into());
+                    }
+                    if self.cancelled_before_done {
+                        self.fail(orc, "C13", k, format!("filestore requests executed in a transaction that had been cancelled before it completed (condition {:?})", f.report.condition));
+                    }
+                    let names: Vec<String> = f.filestore_responses.iter().map(|r| r.first_filename.to_string()).collect();
+                    if names != self.cfg.reqs {
+                        self.fail(orc, "C13", k, format!("responses {:?} do not answer the requests {:?} one by one, in order", names, self.cfg.reqs));
+                    }
+                    for r in &f.filestore_responses {
+                        if r.action_and_status.as_u8() & 0x0F != 0 {
+                            self.fail(orc, "C13", k, format!("request on {} reported status {} although its precondition held", r.first_filename, r.action_and_status.as_u8() & 0x0F));
+                        }
+                    }
+                    self.reqs_done = true;
+                }
+            }
+            if !self.reqs_done && o.req_exists.iter().any(|x| *x) {
+                self.fail(orc, "C13", k, "a filestore request took effect although no successful finalisation was reported".into());
+            }
+            if self.reqs_done && o.req_exists.iter().any(|x| !*x) {
+                self.fail(orc, "C13", k, "a filestore request reported successful left no effect".into());
+            }
+            for (_, p) in &o.pdus {
+                if let PDUPayload::Directive(Operations::Finished(f)) = &p.payload {
+                    if !f.filestore_response.is_empty() && !self.reqs_done {
+                        self.fail(orc, "C13", k, "Finished PDU carries filestore responses that were never reported to the user".into());
+                    }
+                }
+            }
+        }
         // what the op delivered
         let mut eof_noerror_now = false;
         if t[0] == "PDU" {
@@ -385,6 +470,9 @@ impl Oracle {
                 exp.extend(complement(&norm(&self.held), 0, self.eof_size.unwrap()));
                 self.collecting = Some((exp, Vec::new()));
             }
+        } else if o.inds.iter().any(|i| matches!(i, Indication::Fault(_) | Indication::Finished(_) | Indication::Abandon(_) | Indication::Suspended(_))) {
+            // a limit fault (e.g. the NAK limit, reached on the way) ends the exchange being collected
+            self.collecting = None;
         } else if let Some((exp, got)) = self.collecting.as_mut() {
             if t[0] == "SEND" {
                 got.extend(naks_now.iter().cloned());
@@ -419,7 +507,9 @@ impl Oracle {
             }
         }
         self.last_ut_zero = o.ut == std::time::Duration::ZERO && o.st == TransactionState::Active;
-        if t[0] == "SEND" && acked && (self.nak_since_eof || self.nak_due_handled) && !self.left_recv && !o.hp && o.st == TransactionState::Active {
+        // (a NAK that goes out between the EOF and the end of the EOF's own NAK delay may stem from an older
+        //  per-gap delay timer and need not be complete: only the due point of the EOF's check counts)
+        if t[0] == "SEND" && acked && self.nak_due_handled && !self.left_recv && !o.hp && o.st == TransactionState::Active {
             if let Some(fs) = self.eof_size {
                 let missing = complement(&norm(&self.held), 0, fs);
                 let asked = norm(&self.since_eof_reqs);
@@ -484,10 +574,29 @@ impl Oracle {
         }
     }
 
-    fn step_send(&mut self, k: usize, _t: &[&str], o: &Obs, orc: &mut impl Write) {
+    fn step_send(&mut self, k: usize, t: &[&str], o: &Obs, orc: &mut impl Write) {
         let acked = self.cfg.mode == TransmissionMode::Acknowledged;
         let flen = self.cfg.file.len() as u64;
         let flag = if self.cfg.large { FileSizeFlag::Large } else { FileSizeFlag::Small };
+        // ---- C07: what the receiver asked for (the part inside the file) is owed until retransmitted
+        if matches!(t[0], "CANCEL" | "ABANDON") || (t[0] == "PDU" && t[1] == "FIN") || o.res != "ok" || o.st == TransactionState::Terminated {
+            self.spoiled = true;
+        }
+        if o.inds.iter().any(|i| matches!(i, Indication::Fault(_) | Indication::Abandon(_))) {
+            self.spoiled = true;
+        }
+        if acked && t[0] == "PDU" && t[1] == "NAK" && o.res == "ok" {
+            let n: usize = t[4].parse().unwrap();
+            for r in &t[5..5 + n] {
+                let (a, b) = r.split_once('-').unwrap();
+                let (a, b): (u64, u64) = (a.parse().unwrap(), b.parse().unwrap());
+                if a == 0 && b == 0 {
+                    self.owed_md = true;
+                } else if a < b.min(flen) {
+                    self.owed.push((a, b.min(flen)));
+                }
+            }
+        }
         for (dest, p) in &o.pdus {
             // header
             let enc_len = p.payload.clone().encode(flag).len();
@@ -517,11 +626,22 @@ impl Oracle {
                     }
                     self.max_sent = self.max_sent.max(off + len);
                     self.sent_ranges.push((off, off + len));
+                    let mut rest = Vec::new();
+                    for (a, b) in self.owed.drain(..) {
+                        if a < off.min(b) {
+                            rest.push((a, off.min(b)));
+                        }
+                        if (off + len).max(a) < b {
+                            rest.push(((off + len).max(a), b));
+                        }
+                    }
+                    self.owed = rest;
                     if !acked && self.eof_sent {
                         self.fail(orc, "C18", k, "file data sent after EOF in unacknowledged mode".into());
                     }
                 }
                 PDUPayload::Directive(Operations::Metadata(m)) => {
+                    self.owed_md = false;
                     if m.file_size != flen
                         || m.source_filename.as_str() != self.cfg.src
                         || m.destination_filename.as_str() != self.cfg.dst
@@ -557,6 +677,12 @@ impl Oracle {
                     self.fail(orc, "C07", k, format!("sender emitted an unexpected PDU {}", crate::tx::payload_text(other)));
                 }
             }
+        }
+        // nothing left to send, still active, never cancelled/finished: every request has been answered
+        if acked && !self.spoiled && o.st == TransactionState::Active && !o.hp && (self.owed_md || !self.owed.is_empty()) {
+            self.fail(orc, "C07", k, format!("nothing left to send but NAK requests were never answered: metadata={} ranges={:?}", self.owed_md, self.owed));
+            self.owed.clear();
+            self.owed_md = false;
         }
         // ---- C20
         if o.pr != self.max_sent {
@@ -736,7 +862,14 @@ pub fn gen_recv(seed: u64, tier: &str, w: &mut impl Write, stats: &mut Stats) {
         // base exchange
         let mut base: Vec<String> = Vec::new();
         let dst_hex = p.hdr.split_whitespace().find(|x| x.starts_with("dst=")).unwrap()[4..].to_string();
-        base.push(format!("PDU MD {} {} {} {} {} 0 {}", p.closure as u8, p.ck, flen, hex(b"s"), dst_hex, if r.chance(1, 5) { format!("1 {}", hex(b"hello")) } else { "0".into() }));
+        // a quarter of the transactions carry filestore requests (create a file, make a directory: fresh names,
+        // so both succeed once and would fail on a second execution)
+        let reqs: Vec<(&str, u8)> = if r.chance(1, 4) { if r.chance(1, 2) { vec![("rqa", 0x00), ("rqd", 0x50)] } else { vec![("rqa", 0x00)] } } else { vec![] };
+        let req_text: String = reqs.iter().map(|(n, a)| { let mut b = vec![*a, n.len() as u8]; b.extend(n.as_bytes()); b.push(0); format!(" {}", hex(&b)) }).collect();
+        base.push(format!("PDU MD {} {} {} {} {} {}{} {}", p.closure as u8, p.ck, flen, hex(b"s"), dst_hex, reqs.len(), req_text, if r.chance(1, 5) { format!("1 {}", hex(b"hello")) } else { "0".into() }));
+        if !reqs.is_empty() {
+            stats.inc("cases_with_filestore_requests");
+        }
         let mut off = 0;
         let mut data_ops = Vec::new();
         while off < flen {
@@ -844,11 +977,48 @@ pub fn gen_recv(seed: u64, tier: &str, w: &mut impl Write, stats: &mut Stats) {
             script.push("IDLE 400".into());
             stats.inc("idle_drive");
         }
+        if r.chance(1, 20) {
+            // targeted family: the Metadata PDU is overtaken by everything else and arrives only after the
+            // transaction has been cancelled (by the user or by the peer) or suspended
+            stats.inc("script_late_metadata_after_cancel");
+            script.clear();
+            truthful = true;
+            for d in &data_ops {
+                script.push(d.clone());
+                if r.chance(1, 3) {
+                    script.push("SEND".into());
+                }
+            }
+            script.push(format!("PDU EOF 0 {} {} -", cks(&p.file, p.ck), flen));
+            for _ in 0..r.below(3) {
+                script.push("SEND".into());
+            }
+            match r.below(4) {
+                0 => script.push(format!("PDU EOF 15 {} {} 1", cks(&p.file, p.ck), flen)),
+                1 => {
+                    script.push("SUSPEND".into());
+                    script.push(base[0].clone());
+                    script.push("RESUME".into());
+                }
+                _ => script.push("CANCEL".into()),
+            }
+            for _ in 0..r.below(3) {
+                script.push("SEND".into());
+            }
+            script.push(base[0].clone());
+            script.push("SEND".into());
+            script.push("SEND".into());
+            script.push(format!("ADV {}", adv_choice(&mut r, &p)));
+            script.push("TIMEOUT".into());
+            script.push("SEND".into());
+            script.push("IDLE 300".into());
+        }
         let truth = if truthful { format!(" truth={}", hex(&p.file)) } else { String::new() };
         stats.inc(if truthful { "cases_truthful_inputs" } else { "cases_untruthful_inputs" });
         stats.add("ops", script.len() as u64);
         let _ = p.acked;
-        writeln!(w, "CASE r{case} sub={sub} {}{}", p.hdr, truth).unwrap();
+        let reqs_hdr = if reqs.is_empty() { String::new() } else { format!(" reqs={}", reqs.iter().map(|x| x.0).collect::<Vec<_>>().join(",")) };
+        writeln!(w, "CASE r{case} sub={sub} {}{}{}", p.hdr, truth, reqs_hdr).unwrap();
         for s in script {
             writeln!(w, "{s}").unwrap();
         }
